@@ -472,7 +472,300 @@ theorem extrude_cell_over_parent (b : Base) (z : List Rat) (c k : Nat) (ns : Lis
   · intro n j p zj hn hz
     exact extrudeNodes_get b.nodes z j n zj p hz hn
 
+/-! ## extrude_mdg bookkeeping, Cartesian sweep, face orientation -/
+
+/-- INDEX FORMULA (one axis): on a uniform grid with cell size `h > 0` whose cells are split into
+    `r` equal parts, the 1-d test of the sweep accepts the centre of fine cell `i` for coarse cell
+    `c` exactly if `c = i / r`. -/
+theorem cart_inside1d_iff (x0 h : Rat) (r c i : Nat) (hh : 0 < h) (hr : 1 ≤ r) :
+    inside1d (cartCell1d x0 h c) (cartCentre1d x0 h r i) = true ↔ i / r = c := by
+  unfold cartCell1d cartCentre1d
+  rw [inside1d_iff]
+  have hr2 : (0 : Rat) < ((2 * r : Nat) : Rat) := by exact_mod_cast (by omega : 0 < 2 * r)
+  have hle : x0 + (c : Rat) * h ≤ x0 + ((c + 1 : Nat) : Rat) * h := by
+    push_cast; nlinarith
+  rw [min_eq_left hle, max_eq_right hle]
+  have e1 : x0 + (c : Rat) * h < x0 + ((2 * i + 1 : Nat) : Rat) / ((2 * r : Nat) : Rat) * h ↔ c * r ≤ i := by
+    rw [add_lt_add_iff_left, mul_lt_mul_iff_of_pos_right hh, lt_div_iff₀ hr2]
+    have : (c : Rat) * ((2 * r : Nat) : Rat) < ((2 * i + 1 : Nat) : Rat) ↔ c * (2 * r) < 2 * i + 1 := by
+      exact_mod_cast Iff.rfl
+    rw [this]
+    have e : c * (2 * r) = 2 * (c * r) := by ring
+    rw [e]; omega
+  have e2 : x0 + ((2 * i + 1 : Nat) : Rat) / ((2 * r : Nat) : Rat) * h ≤ x0 + ((c + 1 : Nat) : Rat) * h
+      ↔ i < (c + 1) * r := by
+    rw [add_le_add_iff_left, mul_le_mul_iff_of_pos_right hh, div_le_iff₀ hr2]
+    have : ((2 * i + 1 : Nat) : Rat) ≤ ((c + 1 : Nat) : Rat) * ((2 * r : Nat) : Rat)
+        ↔ 2 * i + 1 ≤ (c + 1) * (2 * r) := by
+      exact_mod_cast Iff.rfl
+    rw [this]
+    have e : (c + 1) * (2 * r) = 2 * ((c + 1) * r) := by ring
+    rw [e]; omega
+  rw [e1, e2, Nat.div_eq_iff (by omega), Nat.succ_mul]
+  omega
+
+
+/-- INDEX FORMULA (boxes): the box test accepts the centre of fine cell `(i,j,k)` for coarse cell `c`
+    exactly if `c = (i / rx, j / ry, k / rz)`. -/
+theorem cart_insideBox_iff (o h : R3) (r c i : Idx3) (hx : 0 < h.1) (hy : 0 < h.2.1) (hz : 0 < h.2.2)
+    (rx : 1 ≤ r.1) (ry : 1 ≤ r.2.1) (rz : 1 ≤ r.2.2) :
+    insideBox (cartBox o h c) (cartCentre o h r i) = true ↔ coarseOf r i = c := by
+  obtain ⟨c1, c2, c3⟩ := c
+  simp only [insideBox, cartBox, cartCentre, coarseOf, Bool.and_eq_true,
+    cart_inside1d_iff _ _ _ _ _ hx rx, cart_inside1d_iff _ _ _ _ _ hy ry,
+    cart_inside1d_iff _ _ _ _ _ hz rz, Prod.mk.injEq]
+  tauto
+
+/-- EXTRUDED INTERFACES: the new (low-dim cell, high-dim face) pairs built by `extrude_mdg` are exactly
+    the layer-wise copies `(c + k·C_low, f + k·F_high)`, `k < L`, of the old pairs `(c, f)`; every new
+    pair couples a cell and a face of the SAME layer whose base items were coupled; there are
+    `L` new pairs per old pair; if every old face was coupled to one cell, so is every new face; and
+    the faces put on the second mortar side are exactly the layer copies of the old faces above the
+    median (the side of a face is inherited by all its copies). -/
+theorem extrude_mdg_coupling (ncLow nfHigh L : Nat) (pairs : List (Nat × Nat))
+    (hb : ∀ cf ∈ pairs, cf.1 < ncLow ∧ cf.2 < nfHigh) :
+    (∀ c' f', (c', f') ∈ coupleLayers ncLow nfHigh L pairs ↔
+      ∃ c f k, (c, f) ∈ pairs ∧ k < L ∧ c' = c + k * ncLow ∧ f' = f + k * nfHigh) ∧
+    (∀ c' f', (c', f') ∈ coupleLayers ncLow nfHigh L pairs →
+      c' / ncLow = f' / nfHigh ∧ c' / ncLow < L ∧ (c' % ncLow, f' % nfHigh) ∈ pairs) ∧
+    (coupleLayers ncLow nfHigh L pairs).length = pairs.length * L ∧
+    ((∀ c1 c2 f, (c1, f) ∈ pairs → (c2, f) ∈ pairs → c1 = c2) →
+      ∀ c1 c2 f', (c1, f') ∈ coupleLayers ncLow nfHigh L pairs →
+        (c2, f') ∈ coupleLayers ncLow nfHigh L pairs → c1 = c2) ∧
+    (∀ f', f' ∈ otherSide nfHigh L pairs ↔
+      ∃ c f k, (c, f) ∈ pairs ∧ aboveMedian pairs f = true ∧ k < L ∧ f' = f + k * nfHigh) := by
+  refine ⟨mem_coupleLayers ncLow nfHigh L pairs, ?_, ?_, ?_, mem_otherSide nfHigh L pairs⟩
+  · intro c' f' hm
+    obtain ⟨c, f, k, hp, hk, rfl, rfl⟩ := (mem_coupleLayers _ _ _ _ _ _).mp hm
+    obtain ⟨hc, hf⟩ := hb (c, f) hp
+    have e1 : (c + k * ncLow) / ncLow = k := by
+      rw [Nat.add_mul_div_right _ _ (by omega), Nat.div_eq_of_lt hc]; simp
+    have e2 : (f + k * nfHigh) / nfHigh = k := by
+      rw [Nat.add_mul_div_right _ _ (by omega), Nat.div_eq_of_lt hf]; simp
+    have e3 : (c + k * ncLow) % ncLow = c := by
+      rw [Nat.add_mul_mod_self_right, Nat.mod_eq_of_lt hc]
+    have e4 : (f + k * nfHigh) % nfHigh = f := by
+      rw [Nat.add_mul_mod_self_right, Nat.mod_eq_of_lt hf]
+    rw [e1, e2, e3, e4]
+    exact ⟨rfl, hk, hp⟩
+  · unfold coupleLayers
+    rw [flatten_length_blocks L]
+    · simp
+    · intro b hb'
+      simp only [List.mem_map] at hb'
+      obtain ⟨_, _, rfl⟩ := hb'
+      simp
+  · intro hfun c1 c2 f' h1 h2
+    obtain ⟨a1, f1, k1, hp1, _, rfl, rfl⟩ := (mem_coupleLayers _ _ _ _ _ _).mp h1
+    obtain ⟨a2, f2, k2, hp2, _, rfl, hf⟩ := (mem_coupleLayers _ _ _ _ _ _).mp h2
+    obtain ⟨hf12, hk12⟩ := layer_decomp nfHigh f1 k1 f2 k2 (hb _ hp1).2 (hb _ hp2).2 hf
+    subst hf12; subst hk12
+    rw [hfun a1 a2 f1 hp1 hp2]
+
+/-- PER-GRID MAPS of `extrude_mdg` (those of `extrude_grid`): cell map row `c` is `[c + k·C]`, face
+    map row `f` is `[f + k·F]` (vertical faces only), node `(n, k)` is number `n + k·N` out of `N·|z|`
+    nodes — each a bijection per layer by `extrude_cell_map_bijective_per_layer` (which is stated for
+    any stride, so it applies to `C`, `F` and `N` alike). -/
+theorem extrude_mdg_maps (b : Base) (z : List Rat) (hdim : b.dim ≠ 0) :
+    (∀ c, c < b.cf.length →
+      (extrude b z).cellMap[c]? = some (arange c b.cf.length (z.length - 1))) ∧
+    (∀ f, f < b.fn.length →
+      (extrude b z).faceMap[f]? = some (arange f b.fn.length (z.length - 1))) ∧
+    (extrude b z).nodes.length = z.length * b.nodes.length := by
+  have hE : extrude b z =
+      { nodes := extrudeNodes b.nodes z,
+        fn := verticalFaces b.nodes.length b.fn (z.length - 1)
+                ++ horizontalFaces b.nodes.length b.cn (z.length - 1 + 1),
+        cf := extrudeCells b (z.length - 1),
+        cellMap := (List.range b.cf.length).map (cellMapRow b.cf.length (z.length - 1)),
+        faceMap := (List.range b.fn.length).map (fun f => arange f b.fn.length (z.length - 1)) } := by
+    unfold extrude
+    simp [hdim]
+  rw [hE]
+  refine ⟨?_, ?_, extrudeNodes_length _ _⟩
+  · intro c hc
+    simp [List.getElem?_range hc, cellMapRow]
+  · intro f hf
+    simp [List.getElem?_range hf]
+
+/-- SWEEP = INDEX FORMULA on nested Cartesian grids (any enumeration of the coarse and fine cells, 1-d,
+    2-d or 3-d — unused axes have one cell and ratio 1): the geometric containment sweep lists fine
+    cell `(i,j,k)` in the column of coarse cell `(i/rx, j/ry, k/rz)` and in no other column, and
+    every fine cell listed in a column has that coarse cell as its index quotient. -/
+theorem structured_refinement_cartesian (o h : R3) (r : Idx3) (coarse fine : List Idx3)
+    (hx : 0 < h.1) (hy : 0 < h.2.1) (hz : 0 < h.2.2)
+    (rx : 1 ≤ r.1) (ry : 1 ≤ r.2.1) (rz : 1 ≤ r.2.2) (hnd : coarse.Nodup) :
+    (∀ (n : Nat) (i : Idx3) (c : Nat), fine[n]? = some i → coarse[c]? = some (coarseOf r i) →
+      (∃ col, (assign insideBox (coarse.map (cartBox o h))
+          (enum (fine.map (cartCentre o h r))))[c]? = some col ∧ n ∈ col) ∧
+      (∀ (c' : Nat) (col' : List Nat), c' ≠ c →
+        (assign insideBox (coarse.map (cartBox o h))
+          (enum (fine.map (cartCentre o h r))))[c']? = some col' → n ∉ col')) ∧
+    (∀ (c : Nat) (col : List Nat) (n : Nat),
+      (assign insideBox (coarse.map (cartBox o h)) (enum (fine.map (cartCentre o h r))))[c]? = some col →
+      n ∈ col → ∃ i, fine[n]? = some i ∧ coarse[c]? = some (coarseOf r i)) := by
+  have hS := structured_refinement_contains insideBox (coarse.map (cartBox o h))
+    (fine.map (cartCentre o h r))
+  constructor
+  · intro n i c hn hc
+    apply hS.2 n (cartCentre o h r i) c (cartBox o h (coarseOf r i))
+    · simp [hn]
+    · simp [hc]
+    · exact (cart_insideBox_iff o h r _ i hx hy hz rx ry rz).mpr rfl
+    · intro c' cell' hne hc'
+      rw [List.getElem?_map] at hc'
+      cases ht : coarse[c']? with
+      | none => rw [ht] at hc'; simp at hc'
+      | some t =>
+        rw [ht] at hc'
+        simp only [Option.map_some, Option.some.injEq] at hc'
+        subst hc'
+        cases hin : insideBox (cartBox o h t) (cartCentre o h r i) with
+        | false => rfl
+        | true =>
+          have := (cart_insideBox_iff o h r t i hx hy hz rx ry rz).mp hin
+          subst this
+          exact absurd (nodup_getElem?_inj coarse hnd c' c _ ht hc) hne
+  · intro c col n hcol hn
+    obtain ⟨p, cell, hp, hcell, hin⟩ := hS.1 c col n hcol hn
+    rw [List.getElem?_map] at hp hcell
+    cases hi : fine[n]? with
+    | none => rw [hi] at hp; simp at hp
+    | some i =>
+      cases ht : coarse[c]? with
+      | none => rw [ht] at hcell; simp at hcell
+      | some t =>
+        rw [hi] at hp; rw [ht] at hcell
+        simp only [Option.map_some, Option.some.injEq] at hp hcell
+        subst hp; subst hcell
+        exact ⟨i, rfl, by rw [(cart_insideBox_iff o h r t i hx hy hz rx ry rz).mp hin]⟩
+
+/-- ORIENTATION of the vertical faces of the extruded 3-d grid: with the cyclic node order chosen by
+    `_extrude_2d` (flip decided from the sign `sgn` of the face in its first cell, the side of that
+    cell's interior point `pc`, and the direction of extrusion), `sgn · normal` is the cycle-directed
+    normal `(B-A) × (0,0,|h|)` if `pc` is to the left of `A → B` and `(A-B) × (0,0,|h|)` otherwise —
+    in both cases it points out of the first cell (positive scalar product with `A - pc`), i.e. the
+    normal points out of the cell with sign +1, for upward and downward extrusion. -/
+theorem vertical_face_signed_normal (A B pc : P2) (z0 z1 : Rat) (sgn : Int) (neg : Bool)
+    (hs : sgn = 1 ∨ sgn = -1) (hz : if neg then z1 < z0 else z0 < z1) (hne : area2 A B pc ≠ 0) :
+    V3.smul (sgn : Rat)
+        (faceNormal (vertFaceCoords A B z0 z1 (flipOf sgn (ccwPolyline A B pc) neg)))
+      = (if 0 < area2 A B pc
+          then V3.cross ⟨B.x - A.x, B.y - A.y, 0⟩ ⟨0, 0, if neg then z0 - z1 else z1 - z0⟩
+          else V3.cross ⟨A.x - B.x, A.y - B.y, 0⟩ ⟨0, 0, if neg then z0 - z1 else z1 - z0⟩) ∧
+    0 < (sgn : Rat) *
+      ((faceNormal (vertFaceCoords A B z0 z1 (flipOf sgn (ccwPolyline A B pc) neg))).x * (A.x - pc.x)
+       + (faceNormal (vertFaceCoords A B z0 z1 (flipOf sgn (ccwPolyline A B pc) neg))).y * (A.y - pc.y)) ∧
+    (faceNormal (vertFaceCoords A B z0 z1 (flipOf sgn (ccwPolyline A B pc) neg))).z = 0 := by
+  rw [vertFace_normal]
+  refine signed_normal_core A B pc _ _ (z1 - z0) (if neg then z0 - z1 else z1 - z0) ?hp hne ?key
+  case hp =>
+    cases neg <;> simp only [Bool.false_eq_true, if_false, if_true] at hz ⊢ <;> linarith
+  case key =>
+    rcases hs with rfl | rfl <;> cases neg <;> by_cases ha : 0 < area2 A B pc <;>
+      simp [flipOf, ccwPolyline, ha]
+
+/-- CLOSEDNESS of a triangular prism: the cycle-directed vertical normals of the three edges add up
+    to zero for any vertical vector, and the horizontal faces (normal `(0,0,area2)` for the node
+    order (P,Q,S) at any height) cancel with the signs −1 (bottom) and +1 (top).  Together with
+    `vertical_face_signed_normal` (each `sgn · normal` of the model IS the cycle-directed normal of
+    the cell, whichever way the base face is stored) the signed face normals of every extruded
+    triangle cell sum to zero. -/
+theorem extrude_prism_closed_tri (P Q S : P2) (hv z0 z1 : Rat) :
+    V3.add (V3.add (V3.cross ⟨Q.x - P.x, Q.y - P.y, 0⟩ ⟨0, 0, hv⟩)
+      (V3.cross ⟨S.x - Q.x, S.y - Q.y, 0⟩ ⟨0, 0, hv⟩)) (V3.cross ⟨P.x - S.x, P.y - S.y, 0⟩ ⟨0, 0, hv⟩)
+      = V3.zero ∧
+    faceNormal [⟨P.x, P.y, z0⟩, ⟨Q.x, Q.y, z0⟩, ⟨S.x, S.y, z0⟩] = ⟨0, 0, area2 P Q S⟩ ∧
+    V3.add (V3.smul (-1) (faceNormal [⟨P.x, P.y, z0⟩, ⟨Q.x, Q.y, z0⟩, ⟨S.x, S.y, z0⟩]))
+      (V3.smul 1 (faceNormal [⟨P.x, P.y, z1⟩, ⟨Q.x, Q.y, z1⟩, ⟨S.x, S.y, z1⟩])) = V3.zero := by
+  refine ⟨?_, ?_, ?_⟩ <;> apply V3.ext' <;>
+    simp [V3.add, V3.cross, V3.zero, faceNormal, V3.sub, V3.smul, area2] <;> ring
+
+/-- ORIENTATION of the horizontal faces over a triangle: the model keeps the cell's node cycle
+    `[a, b, c]` or reverses it to `[a, c, b]` such that the cycle is counter-clockwise for upward and
+    clockwise for downward extrusion — the face normal `(0, 0, shoelace)` points towards the next
+    layer, i.e. out of the lower-layer cell (sign +1) and into the upper-layer cell (sign −1). -/
+theorem horizontal_face_orientation_tri (nodes : List V3) (neg : Bool) (a b c : Nat)
+    (hA : area2 (v3xy (nodeAt nodes a)) (v3xy (nodeAt nodes b)) (v3xy (nodeAt nodes c)) ≠ 0) :
+    (orientCycle nodes neg [a, b, c] = [a, b, c] ∨ orientCycle nodes neg [a, b, c] = [a, c, b]) ∧
+    0 < (if neg then (-1 : Rat) else 1) *
+      shoelace ((orientCycle nodes neg [a, b, c]).map (fun n => v3xy (nodeAt nodes n))) := by
+  have hsh : ∀ (X Y Z : P2), shoelace [X, Y, Z] = area2 X Y Z := by
+    intro X Y Z; simp only [shoelace, shoelaceAux, area2]; ring
+  have hrev : ∀ (X Y Z : P2), area2 X Z Y = - area2 X Y Z := by
+    intro X Y Z; simp only [area2]; ring
+  have hr := hrev (v3xy (nodeAt nodes a)) (v3xy (nodeAt nodes b)) (v3xy (nodeAt nodes c))
+  unfold orientCycle
+  simp only [List.map_cons, List.map_nil, hsh]
+  rcases lt_or_gt_of_ne hA with ha | ha <;> cases neg <;>
+    simp [ha, not_lt.mpr (le_of_lt ha), reverseCycle, hsh] <;> linarith [hr]
+
+
+/-- FACE NUMBERING WITH ORDER: in the ordered face list of the extruded 3-d grid, face `k·F + f`
+    (`k < L`) is the vertical face over base face `f` in layer `k` with the node order of
+    `verticalFaceOrdered`, and face `F·L + j·C + c` is the oriented node cycle of base cell `c`
+    shifted to node layer `j`; the four node indices of a vertical face carry the coordinates
+    `vertFaceCoords` (so `vertical_face_signed_normal` speaks about the faces of the model). -/
+theorem faces_ordered_numbering (b : Base) (z : List Rat) :
+    (∀ k f, k < z.length - 1 → f < b.fn.length →
+      (facesOrdered b z)[k * b.fn.length + f]? =
+        ((faceFlips b (z.all (fun v => decide (v ≤ 0))))[f]?).map (fun abf =>
+          verticalFaceOrdered b.nodes.length abf.1 abf.2.1 abf.2.2 k)) ∧
+    (∀ j c, j < z.length - 1 + 1 → c < b.cf.length →
+      (facesOrdered b z)[(z.length - 1) * b.fn.length + (j * b.cf.length + c)]? =
+        ((cellCycles b (z.all (fun v => decide (v ≤ 0))))[c]?).map
+          (fun cyc => cyc.map (· + j * b.nodes.length))) ∧
+    (∀ (a bb k : Nat) (pa pb : V3) (z0 z1 : Rat) (flip : Bool),
+      b.nodes[a]? = some pa → b.nodes[bb]? = some pb → z[k]? = some z0 → z[k + 1]? = some z1 →
+      (verticalFaceOrdered b.nodes.length a bb flip k).map (fun i => (extrudeNodes b.nodes z)[i]?)
+        = (vertFaceCoords (v3xy pa) (v3xy pb) z0 z1 flip).map some) := by
+  refine ⟨?_, ?_, ?_⟩
+  · intro k f hk hf
+    unfold facesOrdered
+    simp only []
+    rw [List.getElem?_append_left (by
+      rw [verticalOrdered_length]
+      calc k * b.fn.length + f < k * b.fn.length + b.fn.length := by omega
+        _ = (k + 1) * b.fn.length := by ring
+        _ ≤ (z.length - 1) * b.fn.length := Nat.mul_le_mul_right _ (by omega))]
+    exact facesOrdered_vertical_get b _ _ k f hk hf
+  · intro j c hj hc
+    unfold facesOrdered
+    simp only []
+    rw [List.getElem?_append_right (by rw [verticalOrdered_length]; omega)]
+    rw [verticalOrdered_length, Nat.add_sub_cancel_left]
+    exact horizontalOrdered_get b _ _ j c hj hc
+  · intro a bb k pa pb z0 z1 flip ha hb hz0 hz1
+    have g1 := extrudeNodes_get b.nodes z k a z0 pa hz0 ha
+    have g2 := extrudeNodes_get b.nodes z k bb z0 pb hz0 hb
+    have g3 := extrudeNodes_get b.nodes z (k + 1) a z1 pa hz1 ha
+    have g4 := extrudeNodes_get b.nodes z (k + 1) bb z1 pb hz1 hb
+    cases flip <;>
+      simp [verticalFaceOrdered, vertFaceCoords, v3xy, g1, g2, g3, g4]
+
 /-! ## non-vacuity of the hypotheses -/
+
+example : coupleLayers 2 10 2 [(0, 5), (1, 1), (0, 8), (1, 7)]
+    = [(0, 5), (2, 15), (1, 1), (3, 11), (0, 8), (2, 18), (1, 7), (3, 17)] := by decide +kernel
+
+example : otherSide 10 2 [(0, 5), (1, 1), (0, 8), (1, 7)] = [8, 18, 7, 17] := by decide +kernel
+
+example : (cartCells (2, 2, 1)).Nodup := by decide +kernel
+
+example : cartSweep (0, 0, 0) (1, 1 / 2, 1) (2, 1, 1) (2, 2, 1)
+    = [[0, 1, 4, 5], [2, 3, 6, 7]] := by decide +kernel
+
+/-- two triangles of the unit square, extruded upwards: ordered faces -/
+example : facesOrdered ⟨2, [⟨0, 0, 0⟩, ⟨1, 0, 0⟩, ⟨0, 1, 0⟩, ⟨1, 1, 0⟩],
+      [[0, 1], [0, 2], [1, 2], [1, 3], [2, 3]], [[0, 1, 2], [1, 2, 3]],
+      [[(0, 1), (2, 1), (1, -1)], [(3, 1), (4, -1), (2, -1)]]⟩ [0, 1]
+    = [[0, 1, 5, 4], [0, 2, 6, 4], [1, 2, 6, 5], [1, 3, 7, 5], [2, 3, 7, 6],
+       [0, 1, 2], [1, 3, 2], [4, 5, 6], [5, 7, 6]] := by decide +kernel
+
+example := vertical_face_signed_normal ⟨0, 0⟩ ⟨1, 0⟩ ⟨1 / 3, 1 / 3⟩ 0 (-2) (-1) true (Or.inr rfl)
+  (by decide +kernel) (by decide +kernel)
+
+
 
 /-- non-vacuity: the hypotheses of `refine1d_parent_unique` hold for a concrete permuted grid -/
 example := refine1d_parent_unique [⟨0, 0, 0⟩, ⟨1, 2, 0⟩, ⟨3, 2, 4⟩] [(1, 2), (0, 1)] 2 (by decide) 1 1 (0, 1)
